@@ -301,6 +301,7 @@ def run_cbmc(q, gb, cfile, qdir, witness, timeout, memgb):
     if q.solver: cmd += q.solver
     cmd += q.cbmc_flags
     outp = os.path.join(qdir, f"cbmc.{tag}.json")
+    open(os.path.join(qdir, f"cmd.{tag}.txt"), "w").write(" ".join(shlex.quote(c) for c in cmd) + "\n")
     t0 = time.time()
     status = "done"
     with open(outp, "w") as f:
@@ -383,7 +384,7 @@ def native_replay(q, rdir, vals, repo=REPO):
     with open(os.path.join(rdir, "values.txt"), "w") as f:
         f.write(f"# nondet return values in call order for {q.harness}:{q.entry} {q.defines}\n")
         for k, v in vals: f.write(f"{v:#x}\n")
-    meta = {"harness": q.harness, "entry": q.entry, "defines": q.defines, "lib": q.lib, "name": q.name, "leak": q.leak, "stubs": q.stubs, "unit_flags": q.unit_flags, "dyadic": q.dyadic}
+    meta = {"harness": q.harness, "entry": q.entry, "defines": q.defines, "lib": q.lib, "name": q.name, "leak": q.leak, "stubs": q.stubs, "unit_flags": q.unit_flags, "dyadic": q.dyadic, "expose": q.expose}
     json.dump(meta, open(os.path.join(rdir, "meta.json"), "w"), indent=1)
     return run_replay(rdir)
 
@@ -408,6 +409,11 @@ def run_replay(rdir):
         o = os.path.join(rdir, unit + ".o")
         sh(["clang++-14"] + NATIVEFLAGS + san + fl + ["-c", f"{REPO}/src/{unit}.cpp", "-o", o])
         objs = [x for x in objs if os.path.basename(x) != unit + ".cpp.o"] + [o]
+    for sym in (meta.get("expose") or []):       # internal-linkage functions the harness calls: make the local symbol global in a copy of its object
+        for x in list(objs):
+            if re.search(r" t " + re.escape(sym) + r"$", subprocess.run(["nm", x], capture_output=True, text=True).stdout, re.M):
+                o = os.path.join(rdir, "exposed_" + os.path.basename(x))
+                sh(["objcopy", "--globalize-symbol=" + sym, x, o]); objs = [y for y in objs if y != x] + [o]
     if meta.get("stubs"): extra = ["-Wl,--allow-multiple-definition"]          # the harness' definition (first on the command line) replaces the library's
     sh(["clang++-14"] + NATIVEFLAGS + san + ["-fno-access-control", "-DVH_NATIVE", f"-DVH_ENTRY_NAME={meta['entry']}", f"-I{HARN}",
         os.path.join(HARN, meta["harness"]), os.path.join(HARN, "replay_rt.cpp")] + defs + objs + extra + ["-o", exe])
